@@ -189,10 +189,10 @@ def check_text(ctx, text, wit0, label, shipped=False, cli=False, nontrivial=True
             # history: one of the two converters has just failed on another file (cartesian option on, unknown resonance further down)
             bad = os.path.join(d, "unreadable.txt")
             with open(bad, "w", encoding="utf-8") as fh:
-                fh.write(A.POISON_TEXTS[(_nconv[0] // 3) % 2])
+                fh.write(A.POISON_TEXTS[(_nconv[0] // 3 + 1) % 2])
             which = ctx.rng.choice(["cpp", "python"])
             ctx.hit("conversion-after-a-failed-conversion-by-one-converter")
-            wit0 = {**wit0, "preceded_by_failed_conversion": which, "of_text": A.POISON_TEXTS[(_nconv[0] // 3) % 2]}
+            wit0 = {**wit0, "preceded_by_failed_conversion": which, "of_text": A.POISON_TEXTS[(_nconv[0] // 3 + 1) % 2]}
             try:
                 run_entry(bad, which, "returned")
             except Exception:  # noqa: BLE001, S110   what it raises is not judged
